@@ -484,6 +484,11 @@ class Interp:
             b = self.content_nopatch(path, base)
         elif base[0] == "T":
             b = st.get(base, base[1])
+        elif base[0] == "F" and base not in st:
+            # bytes of a field of a value that was never written field-wise: the field of the owner's current content
+            b = self.content(path, base)
+            if isinstance(b, tuple) and b and b[0] in ("unknown", "uninit"):
+                b = ("init", base)
         else:
             b = st.get(base, ("init", base))
         if b == ("init", base):
@@ -1007,6 +1012,39 @@ class Interp:
             out.append(Result_("diverge", None, path, site))
             return None
 
+        if p in AND_THEN and t["t"] is not None and len(args) == 2 and self.inline and ctx["depth"] < MAX_DEPTH:
+            # x.and_then(|v| ...) with a workspace closure that itself calls something: evaluated eagerly as the two continuations
+            # it stands for (the closure's effects — writes, validations — would otherwise be hidden inside a lazy term)
+            clo = args[1]
+            cf = None
+            if isinstance(clo, tuple) and clo and clo[0] == "agg" and clo[1].startswith("closure:"):
+                cf = self.w.find_fn(ctx["fn"]["crate"], clo[1][len("closure:"):])
+            if cf is not None and any(b["term"]["k"] == "call" for b in cf["body"]["blocks"]):
+                recv = args[0]
+                is_opt = p.startswith("core::option::")
+                self.discr_kind.setdefault(recv, "option" if is_opt else "result")
+                kn = okness(recv, path)
+                branches = [True, False] if kn is None else [bool(kn)]
+                for i, good in enumerate(branches):
+                    p2 = path.fork() if i < len(branches) - 1 else path
+                    dv = (1 if good else 0) if is_opt else (0 if good else 1)
+                    self.assume_switch(p2, ("discr", recv), dv, [0, 1], site, blk["sp"])
+                    if not good:
+                        v = ("agg", "adt:Option::None", ()) if is_opt else ("agg", "adt:Result::Err", (self.errv(p2, recv),))
+                        self.write(p2, dest, v)
+                        self._walk(ctx, t["t"], p2, visited, out)
+                        continue
+                    x = self.okv(ctx, p2, recv)
+                    self.event(p2, "enter", name, ce, args, site, blk, dest_ty, ctx)
+                    results = self.run(cf, args=[clo, x], path=p2, depth=ctx["depth"] + 1, subst=dict(ctx["subst"]))
+                    for r_ in results:
+                        if r_.kind != "return":
+                            out.append(r_)
+                            continue
+                        r_.path.events.append({"kind": "leave", "name": name, "fn": fn["key"], "bb": bi})
+                        self.write(r_.path, dest, r_.ret)
+                        self._walk(ctx, t["t"], r_.path, visited, out)
+                return None
         if p in RESULT_DEFAULTING and t["t"] is not None and args:
             # a Result whose error is swallowed and replaced by a default: two continuations. On the error branch the value
             # no longer depends on what was being computed — rules see it through the terms (e.g. a MAC key made of a constant)
@@ -1589,6 +1627,11 @@ class Interp:
             else:
                 # len - k form
                 m = match_len_minus(n, self.content(path, loc))
+                if m is None and loc[0] == "R" and loc[2][1] == 0 and loc[3] == (0, 1) and isinstance(loc[2][0], int):
+                    # splitting the suffix base[a..] at len(base) - k: that is k - a bytes before the (common) end
+                    mb = match_len_minus(n, self.content(path, loc[1]))
+                    if mb is not None and mb >= loc[2][0]:
+                        m = mb - loc[2][0]
                 if m is None:
                     self.event(path, "split", name, ce, args, site, blk, dest_ty, ctx, {"how": kind, "n": n, "target": loc, "unknown_mid": True})
                     return ("agg", "tuple", (("ptr", ("R?", loc, "lo", n)), ("ptr", ("R?", loc, "hi", n))))
@@ -1666,14 +1709,24 @@ class HashableLayout(dict):
         return f"<layout {short(self.get('path',''))}>"
 
 def match_len_minus(t, content):
-    """Match Sub(len(x), k) -> k."""
+    """Match Sub(len(x), k) -> k, where x is the buffer whose current content is `content` (the length of some other buffer
+    says nothing about this one)."""
     if isinstance(t, tuple) and t[0] == "binop" and t[1] in ("Sub", "SubWithOverflow", "SubUnchecked"):
         a, b = t[2], t[3]
-        if isinstance(b, tuple) and b[0] == "int" and isinstance(a, tuple) and a[0] == "len":
+        if isinstance(b, tuple) and b[0] == "int" and isinstance(a, tuple) and a[0] == "len" and same_buffer(a[1], content):
             return b[1]
     if isinstance(t, tuple) and t[0] == "field" and t[2] == 0:
         return match_len_minus(t[1], content)
     return None
+
+def same_buffer(x, content):
+    """len(x) is the length of the buffer holding `content`: same term, or the same buffer before in-place (length-preserving)
+    mutation."""
+    def strip(v):
+        while isinstance(v, tuple) and v and v[0] in ("mut", "patched", "vec"):
+            v = v[1]
+        return v
+    return x == content or strip(x) == strip(content)
 
 def fold_binop(op, a, b):
     if isinstance(a, tuple) and isinstance(b, tuple) and a[0] == "int" and b[0] == "int":
@@ -1724,6 +1777,7 @@ def variant_payload(t, vname, idx):
             return t[2][idx]
     return ("variant", t, vname, idx)
 
+AND_THEN = {"core::result::Result::<T, E>::and_then", "core::option::Option::<T>::and_then"}
 RESULT_DEFAULTING = {"core::result::Result::<T, E>::unwrap_or", "core::result::Result::<T, E>::unwrap_or_else", "core::result::Result::<T, E>::unwrap_or_default",
                      "core::result::Result::<T, E>::map_or", "core::result::Result::<T, E>::map_or_else"}
 
